@@ -1711,22 +1711,24 @@ Proof.
       repeat pres_step ltac:(first [mfull_leaf (GL L)
                                     |apply pres_modify; intros ? Hx; exact Hx]). }
     intros ?. apply spec_get_bind. intros s2 H2. cbv zeta.
+    (* the mini stream grows first: the MiniFAT cache is untouched *)
+    eapply spec_bind with (Q := fun _ => mf (fun m => GL L m /\ m = minifat s2)).
+    { apply spec_pre with (P := mf (fun m => GL L m /\ m = minifat s2)).
+      - apply spec_weaken; [apply append_mini_sector_mf|].
+        unfold mf. intros s [[H _] _]. exact H.
+      - unfold mf. intros s [Hg (_ & _ & Hm)]. auto. }
+    intros ?.
     eapply spec_bind with
       (Q := fun _ => mf (fun m => GL L m /\ nthN m (lenN (minifat s2)) = Some v /\ ~ L (lenN (minifat s2)))).
-    { eapply spec_conseq with (P := mf (fun m => GL L m /\ m = minifat s2));
-        [apply spec_set_minifat with (I := WalkSafe)
-           (Q := fun m => GL L m /\ nthN m (lenN (minifat s2)) = Some v /\ ~ L (lenN (minifat s2)))
-        | | |]; unfold mf; auto.
+    { apply spec_set_minifat with (I := WalkSafe)
+           (Q := fun m => GL L m /\ nthN m (lenN (minifat s2)) = Some v /\ ~ L (lenN (minifat s2))).
       - intros m [[H _] _]. exact H.
       - intros m [Hg ->] Hi.
         assert (HnL : ~ L (lenN (minifat s2))).
         { intros HL. destruct Hg as [_ Hg]. specialize (Hg _ HL). apply nthN_Some_lt in Hg. lia. }
-        destruct (GL_put L _ _ v Hg Hv Hi HnL) as [Hg' Hc']. split; [apply Hg'|auto].
-      - intros s [Hg (_ & _ & Hm)]. auto. }
+        destruct (GL_put L _ _ v Hg Hv Hi HnL) as [Hg' Hc']. split; [apply Hg'|auto]. }
     intros ?.
-    eapply spec_bind; [apply spec_weaken; [apply append_mini_sector_mf|]|intros ?].
-    + unfold mf. intros s [[H _] _]. exact H.
-    + apply spec_ret. unfold mf. intros s (Hg & Hc & Hn). split; [apply Hg|auto].
+    apply spec_ret. unfold mf. intros s (Hg & Hc & Hn). split; [apply Hg|auto].
 Qed.
 
 Lemma allocate_mini_sector_mf v : marker v -> pres (mf WalkSafe) (allocate_mini_sector v).
